@@ -1,7 +1,7 @@
 #!/bin/bash
-# Extended conformance (not registered in MANIFEST.json): X01 .. X05.  Prints DIVERGENCE lines, never VIOLATION lines.
+# Extended conformance (not registered in MANIFEST.json): X01 .. X06.  Prints DIVERGENCE lines, never VIOLATION lines.
 cd "$(dirname "$0")"
-for x in X01 X02 X03 X04 X05; do
+for x in X01 X02 X03 X04 X05 X06; do
   s=$(date +%s); out=$(./check $x --tier "${1:-quick}" 2>&1); rc=$?
   echo "$x rc=$rc $(( $(date +%s) - s ))s $(echo "$out" | tail -1)"
 done
